@@ -105,7 +105,7 @@ TypeOK ==
 
 -----------------------------------------------------------------------------
 Sizes == 0..MaxN
-Args  == 0..(MaxN + 1)          \* includes 0 and one vertex too many
+Args  == (-2)..(MaxN + 1)       \* includes 0, one vertex too many and negative numbers (Python indices from the end)
 
 Log(name, args, outcome) ==
     /\ act' = name
